@@ -126,7 +126,9 @@ fn pick_w(rng: &mut Rng, small: bool) -> u64 {
     if small {
         rng.range(1, 8)
     } else {
-        match rng.below(10) {
+        match rng.below(11) {
+            // (any width now and then: row arithmetic that is only wrong for a sparse set of widths)
+            10 => rng.range(13, 260),
             0..=4 => rng.range(1, 12),
             5 | 6 => 20,
             7 => 40,
@@ -272,6 +274,24 @@ impl Check for TermCheck {
         if fl == Flavor::C16 && rng.chance(1, 10) {
             return crate::c16s::gen_sched(rng, tier);
         }
+        if fl == Flavor::C01 && rng.chance(1, 2500) {
+            // one line far beyond any 16-bit quantity (columns and rows are usize in the library;
+            // a terminal reports u16 sizes)
+            let mut sc = Scenario::new("C01", "single", rng.next_u64());
+            sc.set("w", 100);
+            sc.set("h", 1000);
+            sc.set("hz", 0);
+            let n = *rng.pick(&[65_535usize, 65_536, 70_000]);
+            sc.threads = vec![vec![
+                Op::new("new").n(9).n(0).n(1).n(10).n(0).n(8).s("{obs}{msg}").s("fin").s(""),
+                Op::new("set_message").n(0).n(0).s("x".repeat(n)),
+                Op::new("tick").n(0),
+                Op::new("set_message").n(0).n(0).s("y"),
+                Op::new("println").n(0).n(0).s("z"),
+                Op::new("tick").n(0),
+            ]];
+            return sc;
+        }
         if fl == Flavor::C01 && rng.chance(1, 8) {
             return crate::c03s::gen_sched(rng, tier, "C01");
         }
@@ -307,6 +327,8 @@ impl Check for TermCheck {
         let force_bottom = std::env::var_os("VERIF_FORCE_BOTTOM").is_some();
         sc.set("bottom", (multi && fl != Flavor::C16 && (force_bottom || rng.chance(1, 3))) as u64);
         sc.set("xcheck", rng.chance(1, 8) as u64);
+        // a terminal that holds back what the library writes until the library flushes
+        sc.set("buffered", rng.chance(1, 3) as u64);
         // a small share of the runs draws through a real console::Term on a kernel pty
         if fl != Flavor::C16 && rng.chance(1, if tier == Tier::Quick { 40 } else { 25 }) {
             sc.set("pty", 1);
@@ -498,7 +520,7 @@ impl Check for TermCheck {
         r
     }
     fn shrink_cfg(&self) -> Vec<(&'static str, u64)> {
-        vec![("hz", 0), ("bottom", 0), ("xcheck", 0), ("w", 1), ("h", 1)]
+        vec![("hz", 0), ("bottom", 0), ("xcheck", 0), ("buffered", 0), ("w", 1), ("h", 1)]
     }
     fn known(&self, rule: &str, sc: &Scenario, detail: &str) -> Option<&'static str> {
         crate::stories::known(self.pid(), rule, sc, detail)
